@@ -155,3 +155,8 @@ VERDICT_TEMPLATES['fb_scope_across_pous'] = dict(ref=_ref_scope_pous, tpl=_T(_CA
 def _ref_located(t): return set()
 VERDICT_TEMPLATES['located_and_global_types'] = dict(ref=_ref_located, tpl=_T('TYPE\n  mytype : INT;\n  lvl : (lo, hi) := lo;\nEND_TYPE\nCONFIGURATION c\nVAR_GLOBAL\n  g ', ('opt', 'AT %QW1 '), ': ', ('alt', ['INT', 'INT := 1', 'mytype', 'mytype := 1', 'lvl']), ';\nEND_VAR\n'
     'RESOURCE r ON PLC\n  TASK t(INTERVAL := T#1s, PRIORITY := 1);\n  PROGRAM i WITH t : p;\nEND_RESOURCE\nEND_CONFIGURATION\nPROGRAM p\nVAR\n  x AT %IW1 : ', ('alt', ['INT', 'INT := 1', 'mytype', 'mytype := 1', 'lvl']), ';\nEND_VAR\nEND_PROGRAM\n'))
+
+# every elementary type name of the standard is a declared type in every kind of variable block ("every used type is declared" must not reject the standard's own names)
+_ELEMENTARY = 'BOOL SINT INT DINT LINT USINT UINT UDINT ULINT REAL LREAL TIME DATE TIME_OF_DAY TOD DATE_AND_TIME DT STRING WSTRING BYTE WORD DWORD LWORD'.split()
+def _ref_elementary(t): return set()
+VERDICT_TEMPLATES['elementary_types'] = dict(ref=_ref_elementary, tpl=_T('FUNCTION_BLOCK fb\n', ('alt', ['VAR', 'VAR_INPUT', 'VAR_OUTPUT', 'VAR_IN_OUT']), '\n  v : ', ('alt', _ELEMENTARY), ';\nEND_VAR\nEND_FUNCTION_BLOCK\n'))
